@@ -30,6 +30,9 @@ def catalog():
     add('funnel_net', like='funnel', n_live=60, n_batch=10, n_networks=1, n_eff=100, f_live=0.1,
         n_points_min=5)
     add('funnel', like='funnel', n_live=60, n_batch=10, n_eff=100, f_live=0.1, n_points_min=5)
+    add('nuisance', like='nuis', n_live=40, n_batch=20, n_eff=100, f_live=0.1)
+    add('nuisance3_net', like='nuis', n_dim=3, n_live=40, n_batch=20, n_eff=60, f_live=0.1,
+        n_networks=1, discard=True)
     add('half', like='half', n_live=40, n_batch=20, n_eff=120, f_live=0.1)
     add('plateau', like='plateau', n_live=40, n_batch=20, n_eff=120, f_live=0.1)
     add('wrap', like='wrap', n_live=40, n_batch=20, n_eff=120, f_live=0.1, periodic=[0])
